@@ -1,5 +1,6 @@
 import SSDriver.Util
 import SSModel.Format
+import SSModel.ErrLines
 namespace SS.Drv.C18
 open Lean SS.Format SS.Drv
 
@@ -43,7 +44,17 @@ def esc (s : String) : String := s.replace "\n" "⏎"
 def showSummary (lookup : Nat → String) (s : Summary) : String :=
   s!"{s.filename}|{s.lineno}|{s.name}|L:{match s.line with | some l => l | none => lookup s.lineno}|{match s.ctxLocal with | some l => "C:" ++ l | none => "-"}"
 
+/-- `{"k":"errlines","lines":[[code points of one traceback element], ...]}` → the elements `_format_error` yields for
+them, as code points (elements separated by a space, code points by a dash). -/
+def handleErrLines (j : Json) : Except String String := do
+  let ls ← (← jArr (← jField j "lines")).toList.mapM (fun l => do
+    let cs ← (← jArr l).toList.mapM jNat
+    pure (cs.map Char.ofNat))
+  let out := (ls.map SS.ErrLines.sublines).flatten
+  pure (" ".intercalate (out.map (fun s => "-".intercalate (s.map (fun c => toString c.toNat)))))
+
 def handle (j : Json) : Except String String := do
+  if (optStr j "k") == some "errlines" then return (← handleErrLines j)
   let st ← parseStack (← jField j "stack")
   let k := (optStr j "k").getD "format"
   let srcTab : List (Nat × String) := match j.getObjVal? "srclines" with
